@@ -175,3 +175,176 @@ func fid1IdsFromActive(p *core.Prog, rep *core.Report) {
 		rep.Unk("FID1", "vacuity:new-file-id", "a function that opens a data file and makes it the active one exists", "", "none found")
 	}
 }
+
+// ---- IT3: only Iterator.Close closes the merged index iterator ------------------------------------------------------
+//
+// Seed C10-L (round 6): the prefix filter "finished early" by closing the index iterator once the scan left the prefix
+// range; Close drops the heap, and Rewind on a dropped heap returns at once - the second pass enumerates nothing.
+func it3OnlyCloseCloses(p *core.Prog, rep *core.Report) {
+	R := p.R
+	rep.Rule("IT3", "only Close closes: the Close method of the merged index iterator is called on the index iterator a database Iterator holds only from (*Iterator).Close; any other method (or helper) of the Iterator that closes it leaves an iterator that Rewind / Seek can no longer restart")
+	target := p.Method(R.IndexIterator, "Close")
+	if target == nil {
+		rep.Unk("IT3", "vacuity:index-iterator-close", "the merged index iterator has a Close method", "", "not found")
+		return
+	}
+	var bad []string
+	n := 0
+	for _, fn := range p.LibFuncs() {
+		if core.RecvNamed(fn) != R.Iterator {
+			continue
+		}
+		for _, b := range fn.Blocks {
+			for _, in := range b.Instrs {
+				ci, ok := in.(ssa.CallInstruction)
+				if !ok || ci.Common().StaticCallee() != target {
+					continue
+				}
+				n++
+				if fn.Name() != "Close" {
+					bad = append(bad, core.FuncKey(fn)+" closes the index iterator at "+p.InstrPos(in))
+				}
+			}
+		}
+	}
+	if n == 0 {
+		rep.Unk("IT3", "vacuity:iterator-close-call", "(*Iterator).Close closes the index iterator", "", "no call found")
+		return
+	}
+	rep.Check(len(bad) == 0, "IT3", "only-close-closes", "the index iterator of a database Iterator is closed only by (*Iterator).Close", "", strings.Join(sortedStr(bad), "; ")+": after that Rewind / Seek return at once and a second pass enumerates nothing", true)
+}
+
+// ---- FN2: file ids are parsed as decimal numbers -----------------------------------------------------------------------
+//
+// Seed C14-L (round 6): `strconv.ParseUint(name, 0, 32)` - base 0 reads the zero-padded names as octal: ids 0..7 parse
+// the same, `000000008.data` is rejected and a directory with nine files no longer opens.
+func fn2DecimalIds(p *core.Prog, rep *core.Report) {
+	rep.Rule("FN2", "file names are parsed in base 10: in the function of the engine that lists the data directory, every strconv.ParseInt / ParseUint has the constant base 10 (strconv.Atoi is decimal by definition); names are zero-padded (FN1), so base 0 or 8 reads them as octal")
+	n := 0
+	for _, fn := range p.LibFuncs() {
+		if !inRootPkg(fn) {
+			continue
+		}
+		readsDir := false
+		for _, b := range fn.Blocks {
+			for _, in := range b.Instrs {
+				if c, ok := in.(*ssa.Call); ok && core.StaticCalleeIs(c.Common(), "os.ReadDir") {
+					readsDir = true
+				}
+			}
+		}
+		if !readsDir {
+			continue
+		}
+		for _, b := range fn.Blocks {
+			for _, in := range b.Instrs {
+				c, ok := in.(*ssa.Call)
+				if !ok {
+					continue
+				}
+				switch {
+				case core.StaticCalleeIs(c.Common(), "strconv.Atoi"):
+					n++
+					rep.OK("FN2", "decimal-id:"+core.FuncKey(fn), "file ids are parsed as decimal numbers", p.InstrPos(in), false)
+				case core.StaticCalleeIs(c.Common(), "strconv.ParseInt"), core.StaticCalleeIs(c.Common(), "strconv.ParseUint"):
+					n++
+					k, isC := constInt(c.Common().Args[1])
+					rep.Check(isC && k == 10, "FN2", "decimal-id:"+core.FuncKey(fn), "file ids are parsed as decimal numbers", p.InstrPos(in), fmt.Sprintf("base argument is not the constant 10 (constant: %v, value %d): zero-padded names such as 000000008 are read as octal and rejected, so a directory with nine or more files no longer opens", isC, k), false)
+				}
+			}
+		}
+	}
+	if n == 0 {
+		rep.Unk("FN2", "vacuity:id-parser", "the directory loader parses file ids with strconv", "", "no strconv call found in a function that lists a directory")
+	}
+}
+
+// ---- CL2: a Close that refuses keeps the directory lock ----------------------------------------------------------------
+//
+// Seed C16-L (round 6): `if db.isMerging { return ErrMergeIsProgress }` placed BELOW the deferred release of the
+// directory lock: the refused Close leaves the instance fully usable but releases the lock, so a second Open succeeds.
+func cl2RefusalKeepsLock(p *core.Prog, rep *core.Report) {
+	R := p.R
+	rep.Rule("CL2", "a refusing Close keeps the directory lock: in DB.Close, a failure return that no call closing a data file can precede (the instance is untouched and stays usable) is not dominated by the registration of the deferred directory-lock release nor preceded by a direct release")
+	cl := p.MustMethod(R.DB, "Close")
+	releases := p.Reaches("flock.unlock", func(site ssa.CallInstruction) bool {
+		c := site.Common().StaticCallee()
+		return c != nil && strings.Contains(c.String(), "flock.Flock") && (c.Name() == "Unlock" || c.Name() == "Close")
+	})
+	closesFile := p.Reaches("datafile.close", func(site ssa.CallInstruction) bool {
+		c := site.Common().StaticCallee()
+		return c != nil && core.RecvNamed(c) == R.DataFile && c.Name() == "Close"
+	})
+	isRelease := func(in ssa.Instruction) bool {
+		ci, ok := in.(ssa.CallInstruction)
+		if !ok {
+			return false
+		}
+		c := ci.Common().StaticCallee()
+		if c == nil {
+			return false
+		}
+		if strings.Contains(c.String(), "flock.Flock") && (c.Name() == "Unlock" || c.Name() == "Close") {
+			return true
+		}
+		return releases[c]
+	}
+	isFileClose := func(in ssa.Instruction) bool {
+		ci, ok := in.(ssa.CallInstruction)
+		if !ok {
+			return false
+		}
+		if _, isDefer := in.(*ssa.Defer); isDefer {
+			return false
+		}
+		c := ci.Common().StaticCallee()
+		return c != nil && ((core.RecvNamed(c) == R.DataFile && c.Name() == "Close") || closesFile[c])
+	}
+	nRel := 0
+	var relInstrs []ssa.Instruction
+	for _, b := range cl.Blocks {
+		for _, in := range b.Instrs {
+			if isRelease(in) {
+				nRel++
+				relInstrs = append(relInstrs, in)
+			}
+		}
+	}
+	if nRel == 0 {
+		rep.Unk("CL2", "vacuity:close-releases", "DB.Close releases the directory lock", p.Pos(cl.Pos()), "no release found")
+		return
+	}
+	ei := core.ErrResultIndex(cl.Signature)
+	var bad []string
+	for _, r := range core.Returns(cl) {
+		if ei < 0 {
+			continue
+		}
+		ev := core.ReturnOperand(r, ei)
+		u, ok := ev.(*ssa.UnOp)
+		if !ok {
+			continue
+		}
+		if _, isG := u.X.(*ssa.Global); !isG {
+			continue // only returns of a sentinel error value: a refusal, not a failure handed up from a callee
+		}
+		// can a file close precede this return?
+		preceded := false
+		for _, b := range cl.Blocks {
+			for _, in := range b.Instrs {
+				if isFileClose(in) && (before(in, r) || reachBlock(in.Block(), r.Block())) {
+					preceded = true
+				}
+			}
+		}
+		if preceded {
+			continue
+		}
+		for _, rel := range relInstrs {
+			if before(rel, r) {
+				bad = append(bad, "the sentinel error returned at "+p.InstrPos(r)+" refuses the Close before any file was closed, but the directory-lock release registered / made at "+p.InstrPos(rel)+" still runs")
+			}
+		}
+	}
+	rep.Check(len(bad) == 0, "CL2", "refusal-keeps-lock:"+core.FuncKey(cl), "a Close that refuses to run does not release the directory lock", p.Pos(cl.Pos()), strings.Join(sortedStr(bad), "; ")+": the instance stays usable while a second Open of the directory succeeds", true)
+}
